@@ -107,7 +107,8 @@ FragsW == << [name |-> "F", on |-> "Q"], [name |-> "G", on |-> "O"] >>
 \* cycles: fragments that spread themselves or each other directly and through fields
 FragsCyc == << [name |-> "G", on |-> "O"], [name |-> "H", on |-> "O"] >>
 Cyc_Leafs(t) == IF t = "O" THEN { Sel("", "x") } ELSE {}
-Cyc_Comps(t) == CASE t = "Q" -> { Sel("", "o") } [] t = "O" -> { Sel("", "z") } [] OTHER -> {}
+\* `z: z` has the response key of `z`: a key selected twice, the cycle below either occurrence
+Cyc_Comps(t) == CASE t = "Q" -> { Sel("", "o") } [] t = "O" -> { Sel("", "z"), Sel("z", "z") } [] OTHER -> {}
 
 \* FX: the union of the families, for random walks beyond the exhaustive bounds (tlc -simulate)
 FX_Leafs(t) == F1_Leafs(t) \cup F2_Leafs(t) \cup F4_Leafs(t) \cup
